@@ -105,7 +105,7 @@ class Call:
         self.path, self.coord, self.parent, self.args, self.arg_error = path, coord, parent, args, arg_error
 
 
-FIELD_FAULTS = ("raise", "raise_tf", "return_exc", "null", "bad_value", "raise_shared")
+FIELD_FAULTS = ("raise", "raise_tf", "return_exc", "null", "bad_value", "raise_shared", "raise_odd")
 ITEM_FAULTS = ("null", "return_exc", "bad_value")
 
 
@@ -318,7 +318,7 @@ class RefExec:
     def plan_resolver(self, obj_type, fd, path):
         fault = self.faults.get(path)
         p = self.plan
-        if fault in ("raise", "raise_tf", "raise_shared"):
+        if fault in ("raise", "raise_tf", "raise_shared", "raise_odd"):
             tok = self.token(path)
             tf = None
             if fault == "raise_tf":
@@ -363,7 +363,7 @@ class RefExec:
         """A raw (pre-completion) value for a position of type ty, honouring the fault plan."""
         t, k = self.tp(path), self.k
         fault = self.faults.get(path)
-        if fault and not (top and fault in ("raise", "raise_tf", "raise_shared")):
+        if fault and not (top and fault in ("raise", "raise_tf", "raise_shared", "raise_odd")):
             self.fire(("item_" if not top else "") + fault)
             if fault == "null":
                 return None
@@ -638,6 +638,23 @@ class _Opaque:
 OPAQUE = _Opaque()
 
 
+class EmptyMessageError(Exception):
+    """An exception whose message is empty."""
+
+    def __str__(self):
+        return ""
+
+
+class UnprintableError(Exception):
+    """An exception whose __str__ itself raises."""
+
+    def __str__(self):
+        raise RuntimeError("this exception cannot be rendered")
+
+    def __repr__(self):
+        return "UnprintableError()"
+
+
 class FaultError(Exception):
     """Plain exception used by injected faults; carries a unique token."""
 
@@ -661,7 +678,7 @@ def enumerate_fault_sites(plan):
         if what == "field":
             kinds = ["null", "return_exc", "bad_value"]
             if is_resolver:
-                kinds = ["raise", "raise_tf"] + kinds
+                kinds = ["raise", "raise_tf", "raise_odd"] + kinds
         else:
             kinds = list(ITEM_FAULTS)
         for k in kinds:
